@@ -67,7 +67,9 @@ def _case(draw):
                 # reaches it, and the order in which the recorded times are queried afterwards (the very first query after the run
                 # may be anywhere)
                 event_at=draw(st.sampled_from([None, None, 0.37, 0.61, 0.83])), event_terminal=draw(st.booleans()),
-                qorder=draw(st.sampled_from(["forward", "backward", "last_first", "last_interior_first"])))
+                qorder=draw(st.sampled_from(["forward", "backward", "last_first", "last_interior_first"])),
+                # the right-hand side writes into ONE preallocated array and hands that same array back on every call
+                reuse_buffer=draw(st.sampled_from([False, False, False, True])))
 
 
 RICH_FACTOR = 1000.0   # Richardson pieces are the un-extrapolated sub-steps: observed up to 110 x tolerance (worst_observed in the evidence)
@@ -185,8 +187,20 @@ def check(case):
     backward = tf < t0
     labels = ["family:" + fam, "prob:" + case["prob"]["kind"], "backward" if backward else "forward", "calls:{}".format(len(case["cuts"]) + 1)]
     viols = []
+    wrapper = None
+    if case.get("reuse_buffer"):
+        labels.append("rhs_hands_back_one_preallocated_array")
+        store = {}
+
+        def wrapper(inner):
+            def rhs(t, y, **kw):
+                out = np.asarray(inner(t, y, **kw))
+                buf = store.setdefault((out.shape, out.dtype.str), np.empty_like(out))
+                buf[...] = out
+                return buf
+            return rhs
     try:
-        a, f, y0 = traj.make_system(case)
+        a, f, y0 = traj.make_system(case, rhs_wrapper=wrapper, hide_jac=bool(wrapper))
     except Exception as e:
         if exc_origin(e)[0] == "harness":
             raise
